@@ -18,7 +18,7 @@ ASSUMPTIONS = ['time is virtual: the library clock, sleeps and every blocking wa
                "library's own polling quanta (waitnoecho sleeps 0.1 s per round)",
                'signals handled by the parent are modelled as EINTR answers of select/poll (0-2 per execution), not as real signal delivery',
                'PopenSpawn reader thread runs eagerly (moves output to the queue as soon as it is written); delayafterread=0.01 there']
-REQUIRED_FLAGS = {'timeout_on_time': 1, 'match_before_deadline': 1, 'trickle': 1, 'eintr': 1, 'hup_alive': 1, 'tnone_hang': 1}
+REQUIRED_FLAGS = {'delayafterread_none': 1, 'timeout_on_time': 1, 'match_before_deadline': 1, 'trickle': 1, 'eintr': 1, 'hup_alive': 1, 'tnone_hang': 1}
 
 B = 0.25
 EPS = 0.01
@@ -131,7 +131,7 @@ class Setup(object):
         raise KeyError(kind)
 
 
-def run_case(ch, task, T, scen, eintr):
+def run_case(ch, task, T, scen, eintr, nodelay=False):
     """One execution.  Returns (obs, violation)."""
     E.install()
     env = E.Env(ch)
@@ -143,6 +143,8 @@ def run_case(ch, task, T, scen, eintr):
     try:
         st = Setup(env, task)
         sp = st.sp
+        if nodelay:
+            sp.delayafterread = None        # documented setting: skip the sleep after each read
         t_start = env.now()
         connected_until = None
         for (g, kind, arg) in events:
@@ -295,6 +297,18 @@ def run_task(task):
                         key = vkey(task, T, scen[0], viol[0])
                         acc.violation(key, viol[1] + ' | obs %r' % (obs,),
                                       dict(task=task, T=T, scen=scen[0], eintr=eintr, choices=ch.choices()))
+            # the documented delayafterread=None setting (no sleep after a read): the deadline must still be overall
+            if task['transport'] != 'popen' and task['entry'] != 'waitnoecho' and scen[0] in (
+                    'silent', 'trickle', 'trickle-then-match', 'match@T/2', 'burst@T/2', 'exit@T/2'):
+                obs, viol = run_case(Chooser(()), task, T, scen, 0, nodelay=True)
+                acc.execs += 1
+                acc.transitions += 1
+                acc.nontrivial += 1
+                acc.flags['delayafterread_none'] += 1
+                acc.outcomes['%s' % obs.get('outcome')] += 1
+                if viol:
+                    acc.violation(vkey(task, T, scen[0], viol[0]) + ':delayafterread=None', viol[1] + ' | obs %r' % (obs,),
+                                  dict(task=task, T=T, scen=scen[0], eintr=0, choices=[], nodelay=True))
         acc.states += 1
     acc.sample(dict(task=task, T=0.3, scenario='trickle: b"x" every 0.075s from 0.0375s, 16 times', eintr=1))
     return acc
@@ -306,8 +320,8 @@ def replay(spec):
     task, T = spec['task'], spec['T']
     Tref = DEFAULT if T in (-1, None, 0) else T
     scen = [s for s in scenarios(task, Tref) if s[0] == spec['scen']][0]
-    obs, viol = run_case(Chooser(spec['choices']), task, T, scen, spec['eintr'])
+    obs, viol = run_case(Chooser(spec['choices']), task, T, scen, spec['eintr'], nodelay=spec.get('nodelay', False))
     out = {'observation': obs, 'violation': None}
     if viol:
-        out['violation'] = {'key': vkey(task, T, scen[0], viol[0]), 'msg': viol[1]}
+        out['violation'] = {'key': vkey(task, T, scen[0], viol[0]) + (':delayafterread=None' if spec.get('nodelay') else ''), 'msg': viol[1]}
     return out
